@@ -1,7 +1,7 @@
 from propbase import Comp, Prop, reg
 from oracledefs import repl
 
-REPL = Comp('repl', n_quick=23, n_thorough=96, oracle=repl.repl_oracle, nontrivial=repl.repl_nontrivial, stats=repl.repl_stats,
+REPL = Comp('repl', n_quick=24, n_thorough=96, oracle=repl.repl_oracle, nontrivial=repl.repl_nontrivial, stats=repl.repl_stats,
             differential=False, chunk_min=10 ** 6, timeout=1500, shrink=False)
 
 reg(Prop('C14', 'Kevo.Props.C14',
